@@ -538,6 +538,25 @@ func checkQueries(f *sfnt.Font, kind string, boxes []funit.Rect16, ws []funit.In
 			}
 		}
 	}
+	// the name-keyed width map of simple CFF fonts agrees with the per-glyph query
+	if kind != "glyf" {
+		if mp := f.WidthsMapPDF(); mp != nil {
+			if len(mp) != n {
+				return fmt.Sprintf("WidthsMapPDF has %d entries for %d glyphs with distinct names", len(mp), n)
+			}
+			for i := 0; i < n; i++ {
+				gid := glyph.ID(i)
+				got, ok := mp[f.GlyphName(gid)]
+				if !ok || !near(got, new(big.Rat).SetFloat64(f.GlyphWidthPDF(gid))) {
+					return fmt.Sprintf("glyph %d (%q): WidthsMapPDF = %g (present=%v), GlyphWidthPDF = %g", i, f.GlyphName(gid), got, ok, f.GlyphWidthPDF(gid))
+				}
+			}
+		} else if o, isCFF := f.Outlines.(*cff.Outlines); isCFF && !o.IsCIDKeyed() {
+			return "WidthsMapPDF returns nil for a simple CFF font"
+		}
+	} else if f.WidthsMapPDF() != nil {
+		return "WidthsMapPDF is documented to return nil for fonts without CFF outlines"
+	}
 	if f.IsFixedPitch() != fixed {
 		return fmt.Sprintf("IsFixedPitch() = %v, all non-zero widths equal = %v", f.IsFixedPitch(), fixed)
 	}
